@@ -46,6 +46,13 @@ example : let s := run (init 1 2) [.begin 0 0, .snd 0, .snd 0, .snd 0]
 example : let s := run (init 1 2) [.begin 0 0, .snd 0, .snd 0, .snd 0, .snd 0, .snd 0, .loop, .loop, .begin 1 0, .snd 1]
     (s.hs 0).pending = 1 ∧ s.efd = 0 ∧ s.lpc = .scan 0 ∧ (s.snd[1]?.map (·.sent)) = some true := by decide
 
+/-- EINTR / EAGAIN on the wake-up write are inputs of the model: an interrupted write is retried (no state change, the
+sender is still "between exchange and write", so `no_lost_wakeup` keeps holding), a saturated counter answers EAGAIN and
+is non-zero.  Here the counter saturates at 1: the second effective send gets EAGAIN and the loop is still woken. -/
+example : let s := run (init 2 2 0) [.begin 0 0, .snd 0, .snd 0, .snd 0, .eintr (some 0), .eintr (some 0), .snd 0,
+                                     .begin 1 1, .snd 1, .snd 1, .snd 1, .snd 1]
+    s.efd = 1 ∧ (s.hs 0).pending = 1 ∧ (s.hs 1).pending = 1 ∧ (s.snd[1]?.map (·.pc)) = some .dec := by decide
+
 /-! ## every send is followed by a callback -/
 
 /-- After uv_async_send returned on an open handle: either a callback that started after the call began has
@@ -178,7 +185,7 @@ uv_async_send at async.c:105): sender loads pending = 0; loop thread closes, spi
 runs the close callback; the sender is about to do `atomic_fetch_add(busy, 1)` on the released handle. -/
 theorem close_safe_memory_full_false : ¬ close_safe_memory_full := by
   intro h
-  have hm := h (run (init 1 1) [.begin 0 0, .snd 0, .close 0, .loop, .loop, .closeCbs]) ⟨1, 1, _, rfl⟩
+  have hm := h (run (init 1 1) [.begin 0 0, .snd 0, .close 0, .loop, .loop, .closeCbs]) ⟨1, 1, 2^64 - 3, _, rfl⟩
     0 { pc := .inc, h := 0, seq := 1, sent := false } (by decide) (by decide)
   revert hm
   decide
@@ -193,7 +200,7 @@ theorem close_safe_memory_under_contract {s : State} (hr : ReachC s) : MemSafe s
 callback runs after the in-flight sender returned -/
 example : ReachC (run (init 1 1) [.begin 0 0, .snd 0, .close 0, .loop, .loop, .snd 0, .snd 0, .snd 0, .closeCbs]) := by
   refine .step (a := .closeCbs) (.step (a := .snd 0) (.step (a := .snd 0) (.step (a := .snd 0) (.step (a := .loop)
-    (.step (a := .loop) (.step (a := .close 0) (.step (a := .snd 0) (.step (a := .begin 0 0) (.init 1 1)
+    (.step (a := .loop) (.step (a := .close 0) (.step (a := .snd 0) (.step (a := .begin 0 0) (.init 1 1 (2^64 - 3))
     ?_ rfl) ?_ rfl) ?_ rfl) ?_ rfl) ?_ rfl) ?_ rfl) ?_ rfl) ?_ rfl) ?_ rfl
   all_goals first | (intro h; cases h; done) | skip
   intro _ t x hx hp
